@@ -29,6 +29,36 @@ Producers and their consumers in sql.py (every consumer is exercised by correspo
   _extract_full_run_period_indices <- run_period_indices (op read)
   lazily filled slots (_reporting_frequency, _available_outputs(_info), _run_period_indices) <- every
                                 property read; histories interleave them with queries and refused requests
+
+Round 4 (classes e-j of ROUND4_BRIEF.md):
+  (h) numeric edges   - Year 0 (design days): the oracle no longer leaves the leap flag of a Year-0 environment
+                        open: it must be a common year, or (all-periods query only) the flag of a year the
+                        request's rows name (`leap_flag`); fixed databases: design days only (hourly+daily), design
+                        day before a LEAP run period; stored values on a half / negative / 1e-12..1e+16
+                        (`valmode`: the model moves ids, the harness maps ids to the stored doubles), J divided
+                        exactly (correspondence, bits) and within 1e-12 relative (oracle).
+  (f) aliasing        - op `alias`: one request asked twice on one object and once on a second object of the same
+                        file, the first answer edited in place (labels, note, values, the list), then: the other
+                        collections of that answer, the kept answers and a new answer are unchanged and still the
+                        database rows.  One-shot iterables (generator, iter, map) and set / dict / dict-keys as name
+                        argument: refused or answered right, never wrong data.
+  (i) input shapes    - names as tuple / list / another sequence type / str subclass (strict), run-period index as
+                        text / float / padded text (refused or right); name lists reversed against the dictionary
+                        order, with duplicates, with the literal 'Surface'; output names and keys with accents,
+                        degree sign, apostrophe, comma, brackets, percent, CJK, trailing / double blanks, other
+                        case (near-duplicates of another output of the same file).
+  (j) rare branches   - BRANCHES (below) lists the branches of the anchored functions; `_branches` predicts them per
+                        request and every one is a counted stratum (`branch:*` in evidence).
+  (e) override gap    - SQLiteResult has no subclasses; the sibling copies (three dictionary queries, two+two
+                        partition helpers, all-periods vs one-period) are each compared with the model and with
+                        direct SELECTs, and one-period == slice of all; every collection class the queries build
+                        (HourlyContinuous for hourly and sub-hourly, Daily, Monthly, plain values) is a stratum.
+  (g) conventions     - callee conventions that can be confused are told apart by the generated inputs: month != day,
+                        timestep != minutes per step (multi-environment sub-hourly files), len(period) vs days vs
+                        months as chunk sizes, leap vs common year across 29 Feb with several environments, J vs kWh
+                        per column; the oracle shares no code with sql.py (direct SELECTs + stdlib calendar).
+Genuine defect found by op `alias`: known_findings.d/C19.json (C19-metadata-shared-across-run-periods), repair
+proposed as fixes/C19_metadata_per_collection.patch (quiet with and without it).
 """
 import atexit
 import calendar
@@ -47,7 +77,7 @@ PROP = 'C19'
 PROOF_MODULES = ['Ladybug.Props.C19']
 GREP_MODULES = ['Ladybug.Py', 'Ladybug.Model.Cal', 'Ladybug.Model.Sql', 'Ladybug.Model.SqlObj',
                 'Ladybug.Proofs.C19Lemmas', 'Ladybug.Proofs.C19Struct', 'Ladybug.Proofs.C19Time',
-                'Ladybug.Proofs.C19Obj', 'Ladybug.Drv.C19', 'Ladybug.DrvCore']
+                'Ladybug.Proofs.C19Obj', 'Ladybug.Proofs.C19Shapes', 'Ladybug.Drv.C19', 'Ladybug.DrvCore']
 RULE = ('synthetic EnergyPlus databases (tables ReportDataDictionary, ReportData, Time, EnvironmentPeriods, '
         'Simulations; schema copied from the shipped files): 1..3 outputs x 1..5 keys x 1..4 environments '
         '(design days with Year 0, run periods, leap years incl. 29 Feb, periods wrapping the year end) x '
@@ -65,7 +95,12 @@ RULE = ('synthetic EnergyPlus databases (tables ReportDataDictionary, ReportData
         'Python subprocesses in other seeded orders (leap first, sub-hourly first, refused/history first, '
         'reversed; op `process`); values = distinct integer ids, a quarter of the databases with an exact '
         '0 among them; plus the shipped files and the static partition helpers on boundary lengths '
-        '(n*T, n*T+-1, 0). '
+        '(n*T, n*T+-1, 0). Round 4: design-day-only files and design days before a leap run period (Year 0: no '
+        'leap flag out of nothing); stored values on a half, negative, 1e-12..1e+16; op `alias` (answers kept, '
+        'edited in place, asked again, second object of the same file); names as tuple / list / other sequence / '
+        'str subclass / generator / iterator / map / set / dict (the undocumented ones: refused or right), run-period '
+        'index as text / float; name lists reversed, duplicated, with the literal Surface; unusual but legal text '
+        'in names and keys; every branch of the anchored functions is a counted stratum (branch:*). '
         'A case is non-trivial when the implementation returns a value; distinct = distinct (op, input).')
 TRUSTED_BASE = [
     'modelled, not verified: sqlite3 (WHERE = filter in rowid order, ORDER BY TimeIndex = stable sort, '
@@ -118,6 +153,11 @@ NAMES_POOL = ['Zone Lights Electric Energy', 'Zone Mean Radiant Temperature', 'S
               'Zone Air Relative Humidity', 'Electricity:Facility', 'Zone Infiltration Current Density Volume Flow Rate',
               'Site Outdoor Air Drybulb Temperature', 'Surface Window Heat Gain Energy', 'Zone People Occupant Count']
 GROUPS_POOL = ['Zone', 'System', 'Facility:Electricity', 'HVAC System', 'Surface']
+# legal but unusual output names (no '~', '^', '|': separators of the line protocol; no backslash and not
+# both quote characters: a name LIST is formatted into the SQL text by tuple repr, which such names break)
+EXOTIC_NAMES = ['Zone Température Opérative (°C), moyenne', "Zone Occupant's Lighting Energy 100%",
+                'Größe:Facility [kWh] 区域', 'Surface Außen Face Temperature', 'zone lights electric energy',
+                'Zone Lights Electric Energy ', 'Zone  Lights Electric Energy', 'Zone Lights Electric Energy;--']
 SHIPPED = ['eplusout_daily.sql', 'eplusout_dday_runper.sql', 'eplusout_design_days.sql', 'eplusout_hourly.sql',
            'eplusout_monthly.sql', 'eplusout_odd_zonesize.sql', 'eplusout_openstudio.sql', 'eplusout_timestep.sql']
 
@@ -198,7 +238,19 @@ def build_rows(spec):
     return dict_rows, time_rows, data_rows
 
 
-def write_db(path, dict_rows, time_rows, data_rows, envs):
+def value_of(mode, i):
+    """The stored value of data id `i` (the model moves the ids; the harness maps them back).
+    None: the id itself.  'frac': values exactly on a half, negative for odd ids.  'wide': magnitudes
+    1e-12 .. 1e+16, every third negative, non-integral mantissas."""
+    if not mode:
+        return float(i)
+    if mode == 'frac':
+        return (i + 0.5) * (-1.0 if i % 2 else 1.0)
+    k = (i * 7) % 29 - 12
+    return (i + (i % 5) / 8.0) * (10.0 ** k) * (-1.0 if i % 3 == 0 else 1.0) + 0.0     # id 0: +0.0, not -0.0
+
+
+def write_db(path, dict_rows, time_rows, data_rows, envs, valmode=None):
     conn = sqlite3.connect(path)
     c = conn.cursor()
     c.execute('PRAGMA synchronous=OFF')         # scratch files: no fsync per database
@@ -214,7 +266,7 @@ def write_db(path, dict_rows, time_rows, data_rows, envs):
     c.executemany('INSERT INTO ReportDataDictionary VALUES (?,0,?,?,?,?,?,?,NULL,?)',
                   [(r[0], 'Sum' if r[5] == 'J' else 'Avg', r[1], 'Zone', r[2], r[3], r[4], r[5]) for r in dict_rows])
     c.executemany('INSERT INTO ReportData VALUES (?,?,?,?)',
-                  [(i + 1, d[0], d[1], float(d[2])) for i, d in enumerate(data_rows)])
+                  [(i + 1, d[0], d[1], value_of(valmode, d[2])) for i, d in enumerate(data_rows)])
     conn.commit()
     conn.close()
 
@@ -239,8 +291,10 @@ def db_for(src):
     else:
         drows, trows, rrows = build_rows(src)
         path = os.path.join(_tmpdir(), 'db%05d.sql' % len(_DBS))
-        write_db(path, drows, trows, rrows, src['envs'])
+        write_db(path, drows, trows, rrows, src['envs'], src.get('valmode'))
         info = {'path': path, 'dict': drows, 'time': trows, 'data': rrows, 'shipped': False}
+        if src.get('valmode'):
+            info['vmap'] = {d[2]: value_of(src['valmode'], d[2]) for d in rrows}
     _DBS[key] = info
     return info
 
@@ -430,6 +484,9 @@ def gen_spec(rng, family=None, big=False):
         e[0] = i
     nout = rng.choice([1, 2, 2, 3])
     names = rng.sample(NAMES_POOL, nout)
+    if rng.random() < 0.15:         # unusual text in names (near-duplicates of a pool name included)
+        for i in range(rng.randint(1, nout)):
+            names[i] = rng.choice([n for n in EXOTIC_NAMES if n not in names])
     outputs = []
     next_idx = rng.choice([1, 7, 80])
     slots = []
@@ -456,7 +513,9 @@ def gen_spec(rng, family=None, big=False):
                 kcount += 1
                 keysets[i].append([next_idx, rng.choice(['ZONE_%d' % kcount, 'RESIDENCE %d' % kcount,
                                                          'Environment' if p[0][4] == 1 else 'SRF_%d' % kcount,
-                                                         '' if p[0][4] == 1 else 'K%d' % kcount])])
+                                                         '' if p[0][4] == 1 else 'K%d' % kcount,
+                                                         'ZONE_%d' % kcount, 'RESIDENCE %d' % kcount,
+                                                         'ZÖNE ÉTAGE %d' % kcount, "O'BRIEN (%d), 区" % kcount])])
                 next_idx += rng.choice([1, 1, 2, 14])
                 p[1] -= 1
     for s, ks in zip(slots, keysets):
@@ -465,6 +524,15 @@ def gen_spec(rng, family=None, big=False):
             'idseed': rng.randrange(10 ** 6), 'family': family}
     if rng.random() < 0.25:
         spec['idbase'] = 0
+    r = rng.random()
+    if r < 0.12:
+        spec['valmode'] = 'frac'
+    elif r < 0.3:
+        spec['valmode'] = 'wide'
+    if spec.get('valmode'):
+        # id 0 in a J column: the model's `v0` (0/3600000 in lowest terms) cannot be told from an unconverted
+        # id 0 when the ids are mapped back to the stored doubles; the exact-zero stratum stays with plain ids
+        spec.pop('idbase', None)
     # number of data rows (for the id pool)
     d, t, _ = build_rows(dict(spec, nvals=1, outputs=[]))
     per = {}
@@ -498,6 +566,12 @@ def spec_queries(rng, spec):
             qs.append(['No Such Output'] + pick)
     if rng.random() < 0.1:
         qs.append([names[0], names[0]])
+    if len(names) > 1 and rng.random() < 0.35:
+        qs.append(list(reversed(names)))        # request order against the dictionary order
+    if len(names) > 1 and rng.random() < 0.15:
+        qs.append([names[-1]] + names + [names[0]])     # duplicates around the full list
+    if rng.random() < 0.12:
+        qs.append([names[0], 'Surface'])        # the literal 'Surface' in a name LIST (membership test)
     r = rng.random()
     if r < 0.3:
         qs.append('No Such Output')
@@ -553,6 +627,34 @@ def fixed_specs():
     # run period wrapping the year end (non-leap to non-leap)
     S.append({'year': 2017, 'steps': 1, 'freqs': ['hourly'], 'envs': [[1, 'rp', 12, 30, 4]],
               'outputs': [out('Zone Mean Radiant Temperature', 'C', 'hourly', k2)]})
+    # --- round 4 ---
+    # design days only (Year 0 in every Time row), daily + hourly: no leap year out of nothing
+    S.append({'year': 2017, 'steps': 6, 'freqs': ['hourly', 'daily'],
+              'envs': [[1, 'dd', 7, 21, 1], [2, 'dd', 1, 21, 1], [3, 'dd', 12, 21, 1]],
+              'outputs': [out('Zone Lights Electric Energy', 'J', 'hourly', k2),
+                          out('Zone Mean Radiant Temperature', 'C', 'daily', [[8, 'ZONE_1'], [10, 'ZONE_2']])]})
+    # design days (Year 0) before a LEAP run period: the run-period query of a design day stays a common year
+    S.append({'year': 2016, 'steps': 2, 'freqs': ['ts'], 'envs': [[1, 'dd', 8, 21, 1], [2, 'rp', 2, 28, 3]],
+              'outputs': [out('Zone Mean Radiant Temperature', 'C', 'ts', k2)]})
+    # values on a half / negative, and of magnitudes 1e-12 .. 1e+16 (J converted, other units untouched)
+    S.append({'year': 2017, 'steps': 6, 'freqs': ['hourly'], 'envs': [[1, 'dd', 7, 21, 1], [2, 'rp', 3, 30, 3]],
+              'valmode': 'wide',
+              'outputs': [out('Zone Lights Electric Energy', 'J', 'hourly', k3),
+                          out('Zone Air Relative Humidity', '%', 'hourly', [[81, 'RESIDENCE 1'], [107, 'RESIDENCE 2']])]})
+    S.append({'year': 2020, 'steps': 6, 'freqs': ['daily', 'monthly'], 'envs': [[4, 'rp', 2, 1, 60]], 'valmode': 'frac',
+              'outputs': [out('Zone Lights Electric Energy', 'J', 'daily', k2),
+                          out('Electricity:Facility', 'J', 'monthly', [[30, '']], 'Facility:Electricity')]})
+    # legal but unusual text: accents, degree sign, comma, parentheses, apostrophe, percent, CJK; keys too
+    S.append({'year': 2019, 'steps': 4, 'freqs': ['hourly'], 'envs': [[1, 'dd', 1, 21, 1], [5, 'rp', 6, 29, 3]],
+              'outputs': [out(EXOTIC_NAMES[0], 'C', 'hourly', [[3, 'ZÖNE ÉTAGE_1'], [5, "O'BRIEN ROOM"]]),
+                          out(EXOTIC_NAMES[1], 'J', 'hourly', [[4, 'ZÖNE ÉTAGE_1'], [6, '区域 2']]),
+                          out(EXOTIC_NAMES[2], 'W', 'hourly', [[9, 'K (1,2)']])]})
+    # near-duplicate names in ONE file: trailing blank, other case, double blank (text is compared as it is)
+    S.append({'year': 2021, 'steps': 6, 'freqs': ['hourly'], 'envs': [[1, 'dd', 7, 21, 1], [2, 'rp', 12, 31, 1]],
+              'outputs': [out('Zone Lights Electric Energy', 'J', 'hourly', k2),
+                          out('Zone Lights Electric Energy ', 'W', 'hourly', [[8, 'ZONE_1'], [10, 'ZONE_2']]),
+                          out('zone lights electric energy', 'C', 'hourly', [[11, 'ZONE_1']]),
+                          out('Zone  Lights Electric Energy', 'J', 'hourly', [[12, 'zone_1'], [13, 'ZONE_1 ']])]})
     for i, s in enumerate(S):
         s['idseed'] = 100 + i
         s['family'] = 'fixed'
@@ -603,13 +705,91 @@ def finding_specs():
 # correspondence
 
 
+BRANCHES = """Branches of the anchored functions of sql.py (counted per run as `branch:<name>`, predicted from the
+database description and the request; see _branches):
+  dictionary query (3 copies; 2 take lists): query:str | query:list1 | query:listN;  header_rows:empty;
+    freqfilter:drops | freqfilter:keeps;  rel_indices:1 | rel_indices:N (values/all; the run-period query formats any n)
+  data_collections_by_output_name: all:annual | all:mult->extract_all | all:single_period;
+    surface:substring_of_str | surface:member_of_list | surface:no;
+    chunks:monthly | chunks:daily | chunks:len (only under all:mult);  tokwh:column | tokwh:none | tokwh:mixed;
+    class:int_timestep | class:daily | class:monthly | class:annual  (`report_frequency == 'Hourly'` is
+    unreachable: _extract_run_period answers interval types <= 1 with the integer steps per hour)
+  data_collections_by_output_name_run_period: rp:kwh_convert | rp:plain; rp:annual; rp:absent_env (data[0] IndexError)
+  _extract_run_period: extract_rp:itype<=1 | extract_rp:named_freq; extract_rp:annual_return;
+    extract_rp:monthly_start; extract_rp:leap | extract_rp:year0 | extract_rp:common_year
+    (interval type 0 / 6+ and Interval 0: reached by correspondence op `period` only - EnergyPlus writes no such row)
+  _extract_all_run_period: extract_all:monthly | extract_all:daily | extract_all:subdaily;
+    extract_all:new_period_monthly_reset | extract_all:new_period_reset (always with all:mult)
+  _data_type_from_unit: dtype:fraction | dtype:table | dtype:generic
+  _partition_*_chunks / _accumulate / _partition_timeseries: straight-line loops; empty data, ragged tails and
+    zero chunks are op part/partc strata (`part:ragged`, `partc:periods=0`).
+Unreachable through the public API: `_partition_and_convert_timeseries_chunks` (no caller; compared as a static
+helper), `except Exception as e: conn.close(); raise` of the queries needs a failing SQL statement: reached by the
+refused request `quote_list` (name list that breaks the formatted text) and by `bad_type`."""
+
+
+def _branches(spec, q, method, env=None):
+    """Names of the branches the request takes (from the description alone)."""
+    names = [q] if isinstance(q, str) else list(q)
+    out = ['query:str' if isinstance(q, str) else 'query:list1' if len(names) == 1 else 'query:listN']
+    rows = sorted((k[0], o) for o in spec['outputs'] if o[0] in names for k in o[4])
+    if not rows:
+        return out + ['header_rows:empty']
+    f0 = rows[0][1][3]
+    sel = [r for r in rows if r[1][3] == f0]
+    out.append('freqfilter:drops' if len(sel) < len(rows) else 'freqfilter:keeps')
+    if method != 'run_period':
+        out.append('rel_indices:1' if len(sel) == 1 else 'rel_indices:N')
+    if method == 'values':
+        return out
+    envs = spec['envs']
+    if method == 'run_period':
+        if env not in [e[0] for e in envs]:
+            return out + ['rp:absent_env']
+        envs = [e for e in envs if e[0] == env]
+    last = envs[-1]
+    annual = f0 in ('run', 'annual')
+    out.append('extract_rp:itype<=1' if f0 in ('ts', 'hourly') else 'extract_rp:named_freq')
+    if annual:
+        out.append('extract_rp:annual_return')
+    else:
+        if f0 == 'monthly':
+            out.append('extract_rp:monthly_start')
+        out.append('extract_rp:year0' if last[1] == 'dd' else
+                   'extract_rp:leap' if calendar.isleap(spec['year']) else 'extract_rp:common_year')
+    units = [r[1][2] for r in sel]
+    for u in set(units):
+        out.append('dtype:fraction' if u == '' else 'dtype:table' if UNIT_TYPE.get(u, 0) else 'dtype:generic')
+    cls = {'ts': 'int_timestep', 'hourly': 'int_timestep', 'daily': 'daily', 'monthly': 'monthly'}.get(f0, 'annual')
+    out.append('class:' + cls)
+    if isinstance(q, str):
+        out.append('surface:substring_of_str' if 'Surface' in q else 'surface:no')
+    else:
+        out.append('surface:member_of_list' if 'Surface' in names else 'surface:no')
+    if method == 'run_period':
+        out.append('rp:annual' if annual else 'rp:kwh_convert' if units[0] == 'J' else 'rp:plain')
+        return out
+    if annual:
+        out.append('all:annual')
+    elif len(envs) > 1:
+        out.append('all:mult->extract_all')
+        out.append('extract_all:' + {'monthly': 'monthly', 'daily': 'daily'}.get(f0, 'subdaily'))
+        out.append('extract_all:new_period_monthly_reset' if f0 == 'monthly' else 'extract_all:new_period_reset')
+        out.append('chunks:' + {'monthly': 'monthly', 'daily': 'daily'}.get(f0, 'len'))
+    else:
+        out.append('all:single_period')
+    nj = sum(1 for u in units if u == 'J')
+    out.append('tokwh:none' if nj == 0 else 'tokwh:column' if nj == len(units) else 'tokwh:mixed')
+    return out
+
+
 def _model_db_line(src, names_for_shipped=None):
     info = db_for(src)
     if info['shipped']:
         rows = _shipped_data(info, names_for_shipped or [])
         rrows = [(r[0], r[1], r[3]) for r in rows]          # value := rowid (distinct id)
         return _db_tokens(info['dict'], info['time'], rrows), {r[3]: r[2] for r in rows}
-    return _db_tokens(info['dict'], info['time'], info['data']), None
+    return _db_tokens(info['dict'], info['time'], info['data']), info.get('vmap')
 
 
 def correspondence(ctx):
@@ -641,7 +821,8 @@ def correspondence(ctx):
         ctx.count('part:n=%d' % c[0] if c[0] < 8 else 'part:n>=8')
         ctx.count('part:len%%n==0' if c[0] and len(c[1]) % c[0] == 0 else 'part:ragged')
     compare_batch(ctx, 'part', pc, lambda c: 'part %d %s' % (c[0], ' '.join(map(str, c[1]))),
-                  lambda c: _show_cols(SQLiteResult._partition_timeseries([(float(v), i) for i, v in enumerate(c[1])], c[0])),
+                  lambda c: _show_cols(SQLiteResult._partition_timeseries(
+                      (tuple if len(c[1]) % 2 else list)([(float(v), i) for i, v in enumerate(c[1])]), c[0])),
                   canon=lambda s: _norm_ws(canon(s)), key=lambda c: (c[0], len(c[1]), tuple(c[1][:3])))
     compare_batch(ctx, 'partconv', pc, lambda c: 'partconv %d %s' % (c[0], ' '.join(map(str, c[1]))),
                   lambda c: _show_cols(SQLiteResult._partition_and_convert_timeseries(
@@ -659,7 +840,8 @@ def correspondence(ctx):
     compare_batch(ctx, 'partc', cc,
                   lambda c: 'partc %d %s %s' % (len(c[0]), ' '.join(map(str, c[0])), ' '.join(map(str, c[1]))),
                   lambda c: _show_cols(SQLiteResult._partition_timeseries_chunks(
-                      [(float(v), i) for i, v in enumerate(c[1])], list(c[0]))),
+                      (tuple if len(c[1]) % 2 else list)([(float(v), i) for i, v in enumerate(c[1])]),
+                      (tuple if len(c[0]) % 2 else list)(c[0]))),
                   canon=lambda s: _norm_ws(canon(s)), key=lambda c: (tuple(c[0]), len(c[1])))
     compare_batch(ctx, 'partcconv', cc,
                   lambda c: 'partcconv %d %s %s' % (len(c[0]), ' '.join(map(str, c[0])), ' '.join(map(str, c[1]))),
@@ -733,7 +915,7 @@ def correspondence(ctx):
 
     # --- whole queries on synthetic databases
     specs = fixed_specs() + [s for _, s in sorted(finding_specs().items())]
-    for _ in range(ctx.n(40, 900)):
+    for _ in range(ctx.n(40, 750)):
         specs.append(gen_spec(rng, big=not ctx.quick and rng.random() < 0.1))
     qall, qrp, qvals = [], [], []
     for s in specs:
@@ -747,12 +929,18 @@ def correspondence(ctx):
             ctx.count('out:freq=%s' % o[3])
         for q in spec_queries(rng, s):
             qall.append({'db': s, 'q': q})
+            for b in _branches(s, q, 'all'):
+                ctx.count('branch:' + b)
             if rng.random() < 0.4:
                 qvals.append({'db': s, 'q': q})
+                for b in _branches(s, q, 'values'):
+                    ctx.count('branch:' + b)
             if isinstance(q, str):
                 envs = [e[0] for e in s['envs']]
                 for e in envs + ([99] if rng.random() < 0.2 else []):
                     qrp.append({'db': s, 'q': q, 'env': e})
+                    for b in _branches(s, q, 'run_period', e):
+                        ctx.count('branch:' + b)
     # shipped files
     for f in SHIPPED:
         src = {'file': f}
@@ -791,8 +979,15 @@ def correspondence(ctx):
             return '%s %s %s' % (op, _query_tokens(c['q']), dbl)
         return f
 
+    shape_turn = [0]
+
     def q_arg(q):
-        return q if isinstance(q, str) else tuple(q)
+        # the model takes a list of names; the code is fed the same names as tuple, list, another
+        # sequence type, and - a single name - as str subclass
+        shape_turn[0] += 1
+        shape = (['strsub', None, None] if isinstance(q, str) else STRICT_SHAPES)[shape_turn[0] % 3]
+        ctx.count('shape:corr=%s' % (shape or 'str'))
+        return _name_arg(q, {'as': shape})[0]
 
     def impl_qall(c):
         info = db_for(c['db'])
@@ -873,7 +1068,7 @@ def correspondence(ctx):
     rng.shuffle(hist)
     hist = hist[:ctx.n(80, 2500)]
     run_db_op('qhist', hist, impl_hist)
-    _hist_correspondence(ctx, [s for s in specs if s.get('nvals', 0) <= 4000])
+    _hist_correspondence(ctx, [s for s in specs if s.get('nvals', 0) <= 4000 and not s.get('valmode')])
 
 
 def _hist_line_and_steps(rng, spec):
@@ -916,12 +1111,12 @@ def _impl_hist_step(obj, st):
     i = st['inp']
     if st['op'] == 'collections':
         q = i['q']
-        arg = q if isinstance(q, str) else (list(q) if i.get('as_list') else tuple(q))
+        arg = _name_arg(q, i)[0]
         r = _show_result(obj.data_collections_by_output_name(arg))
         return r if isinstance(arg, str) or list(arg) == list(q) else 'argument-changed %s' % arg
     if st['op'] == 'values':
         q = i['q']
-        arg = q if isinstance(q, str) else (list(q) if i.get('as_list') else tuple(q))
+        arg = _name_arg(q, i)[0]
         r = _norm_ws('ok ' + ' '.join(_fval(v) for v in obj.values_by_output_name(arg)))
         return r if isinstance(arg, str) or list(arg) == list(q) else 'argument-changed %s' % arg
     if st['op'] == 'run_period':
@@ -1050,7 +1245,9 @@ def _expected_groups(path, names):
             itype = first[5]
             vals = [r[0] for r in rs]
             d = {'env': env, 'name': h[3], 'key': h[2], 'units': h[5], 'raw': vals, 'itype': itype,
-                 'dict': h[0], 'leap_known': bool(last[1])}
+                 'dict': h[0], 'leap_known': bool(last[1]),
+                 # leap flags the years of ALL rows of this key stand for (Year 0 = design day: no year)
+                 'leap_file': sorted(set(_leap_rule(r[1]) for r in rows if r[1]))}
             if h[5] == 'J':
                 d['unit'] = 'kWh'
                 d['values'] = [v / 3600000. for v in vals]
@@ -1103,16 +1300,25 @@ def _close(a, b, exact):
     return True
 
 
-def _cmp_colls(got, want):
-    """None if the collection lists agree (as sets of (period, name, key) -> data), else (kind, detail)."""
+def _cmp_colls(got, want, single_env=False):
+    """None if the collection lists agree (as sets of (period, name, key) -> data), else (kind, detail).
+    Leap flag: an environment with a year carries that year's flag.  A design day (Year 0) names no year:
+    its period is a common-year period, or - when the request spans environments that do name a year
+    (`single_env` false) - a period of that year (the all-periods query gives every period of one file
+    the same flag).  Never a leap period out of nothing."""
     if len(got) != len(want):
         return 'count', 'collections: got %d, want %d' % (len(got), len(want))
     gk = sorted(got, key=lambda d: (d['period'][:7], str(d['name']), str(d['key'])))
     wk = sorted(want, key=lambda d: (d['period'][:7], str(d['name']), str(d['key'])))
     for g, w in zip(gk, wk):
-        # design days carry Year 0: the time table says nothing about a leap year there
         if g['period'][:7] != w['period'][:7] or (w['leap_known'] and g['period'] != w['period']):
             return 'period', 'period %s, want %s (key %s)' % (g['period'], w['period'], w['key'])
+        if not w['leap_known']:
+            allowed = {False} | (set() if single_env else set(w.get('leap_file', [])))
+            if g['period'][7] not in allowed:
+                return 'leap_flag', ('period %s of a design day (Year 0 in the Time table) is flagged leap=%s; the '
+                                     'years of the rows allow %s (key %s)'
+                                     % (g['period'][:7], g['period'][7], sorted(allowed), w['key']))
         if (g['name'], g['key']) != (w['name'], w['key']):
             return 'label', 'label %s/%s, want %s/%s' % (g['name'], g['key'], w['name'], w['key'])
         if g['cls'] != w['cls']:
@@ -1171,6 +1377,75 @@ def _facts(src, groups, order, names):
     return {'multi_env': nenv > 1, 'single_key': nkeys == 1, 'mixed_units': len(units) > 1,
             'mixed_time_table': ntypes > 1, 'feb29_boundary': feb29, 'annual': annual,
             'env_ends_differ_by_frequency': differ}
+
+
+class _Seq(object):
+    """A sequence that is neither list nor tuple (len, index, iteration): `array of output names`."""
+
+    def __init__(self, items):
+        self._items = tuple(items)
+
+    def __len__(self):
+        return len(self._items)
+
+    def __getitem__(self, i):
+        return self._items[i]
+
+    def __iter__(self):
+        return iter(self._items)
+
+    def __eq__(self, other):
+        return isinstance(other, _Seq) and other._items == self._items
+
+    def __repr__(self):         # formatted into SQL text only through tuple(...)
+        return '_Seq%r' % (self._items,)
+
+
+class _Str(str):
+    """A str subclass (what GUI layers hand over)."""
+
+
+STRICT_SHAPES = ['tuple', 'list', 'seq']            # documented: a name or an array of names
+LENIENT_SHAPES = ['gen', 'iter', 'map', 'set', 'dictkeys', 'dict']     # refuse, or answer right
+ENV_SHAPES = ['str', 'float', 'strpad']             # a run-period index as text / float: refuse, or answer right
+
+
+def _name_arg(q, inp):
+    """(argument handed to the code, lenient?) for the request shape `inp['as']`."""
+    shape = inp.get('as') or ('list' if inp.get('as_list') else None)
+    if isinstance(q, str):
+        return (_Str(q) if shape == 'strsub' else q), False
+    q = list(q or [])
+    if shape in (None, 'tuple'):
+        return tuple(q), False
+    if shape == 'list':
+        return list(q), False
+    if shape == 'seq':
+        return _Seq(q), False
+    if shape == 'gen':
+        return (n for n in q), True
+    if shape == 'iter':
+        return iter(q), True
+    if shape == 'map':
+        return map(str, q), True
+    if shape == 'set':
+        return set(q), True
+    if shape == 'dictkeys':
+        return dict((n, i) for i, n in enumerate(reversed(q))).keys(), True
+    if shape == 'dict':
+        return dict((n, i) for i, n in enumerate(reversed(q))), True
+    raise ValueError('unknown shape %r' % shape)
+
+
+def _env_arg(inp):
+    env, shape = inp['env'], inp.get('env_as')
+    if shape == 'str':
+        return str(env), True
+    if shape == 'float':
+        return float(env), True
+    if shape == 'strpad':
+        return ' %d' % env, True
+    return env, False
 
 
 _SHARED = {}        # path -> SQLiteResult used by every request of the history under evaluation
@@ -1334,6 +1609,97 @@ def _sql(path):
     return SQLiteResult(path)
 
 
+def _snap(res):
+    """A comparable image of an answer (collections described field by field; value lists copied)."""
+    if isinstance(res, list) and res and all(hasattr(x, 'header') for x in res):
+        out = []
+        for x in res:
+            d = _describe(x)
+            d['meta'] = sorted((str(k), str(v)) for k, v in x.header.metadata.items())
+            out.append(d)
+        return out
+    return [float(v) for v in res]
+
+
+def _check_alias(inp, fail):
+    """The answers belong to the caller.  One request is asked twice on one object and once on a second
+    object of the same file (three answers are kept); then the FIRST answer is edited in place - the label
+    and a note in the metadata of its first collection, that collection's values, finally the list
+    itself.  Required: every OTHER collection of that answer, the answer kept from before, the other
+    object's answer and a new answer are still what they were - and the new answer is still the
+    database rows (ordinary oracle on the same object)."""
+    from ladybug.sql import SQLiteResult
+    src = inp['db']
+    path = db_for(src)['path']
+    q = inp['q']
+    method = inp.get('method', 'all')
+    env = inp.get('env')
+
+    def call(o):
+        if method == 'run_period':
+            return o.data_collections_by_output_name_run_period(q, env)
+        arg = _name_arg(q, inp)[0]
+        return o.values_by_output_name(arg) if method == 'values' else o.data_collections_by_output_name(arg)
+
+    obj, obj2 = SQLiteResult(path), SQLiteResult(path)
+    try:
+        r1, r2, r3 = call(obj), call(obj), call(obj2)
+        s1, s2, s3 = _snap(r1), _snap(r2), _snap(r3)
+    except Exception:
+        return None         # reported by the ordinary ops
+    if s1 != s2 or s1 != s3:
+        return fail('repeat', 'the same request answered the same twice on one object and on a second object',
+                    'answers differ: %s | %s | %s' % (str(s1)[:80], str(s2)[:80], str(s3)[:80]), method=method,
+                    what='second_object' if s1 == s2 else 'second_call')
+    colls = bool(s1) and isinstance(s1[0], dict)
+    if colls:
+        c = r1[0]
+        md = c.header.metadata
+        for k in list(md):
+            md[k] = 'EDITED BY THE CALLER'
+        md['note'] = 'checked'
+        try:
+            c.values = [v + 1.5 for v in c.values]
+        except Exception:
+            pass
+        now = _snap(r1[1:])
+        victims = [i + 1 for i, (a, b) in enumerate(zip(now, s1[1:])) if a != b]
+        if victims:
+            v = victims[0]
+            shared = 'metadata' if now[v - 1]['meta'] != s1[v]['meta'] else 'values'
+            return fail('alias', 'collection %d of the answer keeps label %s and its values after the caller '
+                        'edited collection 0' % (v, s1[v]['meta']),
+                        'collections %s changed; collection %d is now labelled %s, values %s...'
+                        % (victims[:6], v, now[v - 1]['meta'], now[v - 1]['values'][:3]),
+                        method=method, what='within_answer', shared=shared,
+                        same_key_other_period=all((s1[i]['name'], s1[i]['key']) == (s1[0]['name'], s1[0]['key'])
+                                                  for i in victims))
+    del r1[:]
+    for tag, r, sn in (('earlier_answer', r2, s2), ('other_object', r3, s3)):
+        if _snap(r) != sn:
+            return fail('alias', 'the %s is unchanged by an edit of another answer' % tag.replace('_', ' '),
+                        'it changed to %s' % str(_snap(r))[:160], method=method, what=tag)
+    try:
+        s4 = _snap(call(obj))
+    except Exception as e:
+        return fail('alias', 'the request is answered again after an edit of its earlier answer',
+                    'raises %s: %s' % (type(e).__name__, e), method=method, what='later_call')
+    if s4 != s1:
+        return fail('alias', 'a new answer equals the first one (before the caller edited that)',
+                    'new answer %s, first %s' % (str(s4)[:100], str(s1)[:100]), method=method, what='later_call')
+    # and the object still answers with the database rows
+    op = {'all': 'collections', 'run_period': 'run_period', 'values': 'values'}[method]
+    _SHARED.clear()
+    _SHARED[path] = obj
+    try:
+        res = check_case(op, dict(inp))
+    finally:
+        _SHARED.clear()
+    if res:
+        res = dict(res, sig=dict(res.get('sig') or {}, after_edit=True))
+    return res
+
+
 def _check_history(inp):
     """A sequence of requests on ONE SQLiteResult: every answer must equal the database rows exactly as
     for a fresh object (the single-request oracle is evaluated on the shared object, step by step)."""
@@ -1374,7 +1740,9 @@ def check_case(op, inp):
     path = info['path']
     q = inp.get('q')
     names = [q] if isinstance(q, str) else list(q or [])
-    arg = q if isinstance(q, str) else (list(q or []) if inp.get('as_list') else tuple(q or []))
+    lenient = False
+    if op in ('collections', 'values', 'absent', 'run_period'):
+        arg, lenient = _name_arg(q, inp)
     if op in ('read', 'refused'):
         names = []
     groups, order = _expected_groups(path, names)
@@ -1392,12 +1760,16 @@ def check_case(op, inp):
         return _check_read(path, inp['attr'], fail)
     if op == 'refused':
         return _check_refused(path, inp, fail)
+    if op == 'alias':
+        return _check_alias(inp, fail)
 
     if op == 'absent':
         for meth in ('data_collections_by_output_name', 'values_by_output_name'):
             try:
-                r = getattr(_sql(path), meth)(arg)
+                r = getattr(_sql(path), meth)(_name_arg(q, inp)[0])     # a fresh argument per call
             except Exception as e:
+                if lenient:
+                    continue
                 return fail('exception', '[]', '%s raises %s: %s' % (meth, type(e).__name__, e), exc=type(e).__name__, exc_obj=e)
             if list(r) != []:
                 return fail('absent', '[]', '%s returned %d items' % (meth, len(r)))
@@ -1419,9 +1791,13 @@ def check_case(op, inp):
             if isinstance(arg, list) and arg != names:
                 return fail('argument', 'the caller\'s name list stays %s' % names, 'it is now %s' % arg)
         except Exception as e:
+            if lenient:
+                return None     # an undocumented container is refused: fine (never wrong data)
             freq = order[0]
             return fail('exception', 'collections of %s' % names, 'raises %s: %s' % (type(e).__name__, e),
                         exc=type(e).__name__, exc_obj=e, freq=freq, method='all')
+        if lenient and isinstance(res, list) and res == []:
+            return None
         problems = []
         for f in order:                 # the frequency policy is the code's: accept any single one
             want = groups[f]
@@ -1452,12 +1828,17 @@ def check_case(op, inp):
         env = inp['env']
         if not order:
             return check_case('absent', inp)
+        envarg, env_lenient = _env_arg(inp)
         try:
-            res = _sql(path).data_collections_by_output_name_run_period(q, env)
+            res = _sql(path).data_collections_by_output_name_run_period(arg, envarg)
         except Exception as e:
+            if env_lenient:
+                return None     # a run-period index that is not an integer is refused: fine
             return fail('exception', 'collections of %s for run period %s' % (q, env),
                         'raises %s: %s' % (type(e).__name__, e), exc=type(e).__name__, exc_obj=e, freq=order[0],
                         method='run_period')
+        if env_lenient and isinstance(res, list) and res == []:
+            return None
         problems = []
         for f in order:
             want = [d for d in groups[f] if d['env'] == env]
@@ -1474,7 +1855,7 @@ def check_case(op, inp):
                 problems.append((f, ('class', 'expected collections')))
                 continue
             got = [_describe(x) for x in res]
-            r = _cmp_colls(got, want)
+            r = _cmp_colls(got, want, single_env=True)
             if r is None:
                 # one run period == the slice of all (when asking for all succeeds)
                 try:
@@ -1513,7 +1894,11 @@ def check_case(op, inp):
             if isinstance(arg, list) and arg != names:
                 return fail('argument', 'the caller\'s name list stays %s' % names, 'it is now %s' % arg)
         except Exception as e:
+            if lenient:
+                return None
             return fail('exception', 'values', 'raises %s: %s' % (type(e).__name__, e), exc=type(e).__name__, exc_obj=e)
+        if lenient and list(res) == []:
+            return None
         for f in order:
             # per time index the rows of all keys of the frequency, any order inside one time index
             conn = sqlite3.connect(path)
@@ -1619,14 +2004,14 @@ def _shrink_process(order, hs=0):
 
 def finding_cases():
     """(op, input) pairs of the recorded findings: the `example_input`s of known_findings.d/C19.json."""
-    S = finding_specs()
-    lights, mrt = 'Zone Lights Electric Energy', 'Zone Mean Radiant Temperature'
-    return []
+    lights = 'Zone Lights Electric Energy'
+    return [('alias', {'db': fixed_specs()[1], 'q': lights, 'method': 'all'})]
 
 
 def regression_cases():
     """(op, input) pairs on which the code failed before the repairs fixes/C19_*.patch."""
     S = finding_specs()
+    F = fixed_specs()
     lights, mrt = 'Zone Lights Electric Energy', 'Zone Mean Radiant Temperature'
     return [
         ('collections', {'db': S['mixed-units'], 'q': [lights, mrt]}),
@@ -1640,6 +2025,26 @@ def regression_cases():
         ('collections', {'db': S['mixed-multi'], 'q': lights}),
         ('collections', {'db': S['mixed-multi'], 'q': mrt}),
         ('run_period', {'db': S['mixed-multi'], 'q': lights, 'env': 2}),
+        # round 4: aliasing (one dictionary per collection), argument shapes, Year 0, unusual text
+        ('alias', {'db': S['feb29'], 'q': lights, 'method': 'run_period', 'env': 8}),
+        ('alias', {'db': S['mixed-units'], 'q': [lights, mrt], 'method': 'all', 'as_list': True}),
+        ('alias', {'db': S['mixed-units'], 'q': lights, 'method': 'values'}),
+        ('alias', {'db': S['annual-multi'], 'q': lights, 'method': 'all'}),
+        ('collections', {'db': S['mixed-units'], 'q': [mrt, lights], 'as': 'seq'}),
+        ('collections', {'db': S['mixed-units'], 'q': [mrt, lights, mrt], 'as': 'gen'}),
+        ('values', {'db': S['mixed-units'], 'q': [mrt, lights], 'as': 'dictkeys'}),
+        ('collections', {'db': S['mixed-units'], 'q': lights, 'as': 'strsub'}),
+        ('run_period', {'db': S['mixed-multi'], 'q': lights, 'env': 2, 'env_as': 'str'}),
+        ('run_period', {'db': S['mixed-multi'], 'q': lights, 'env': 1, 'env_as': 'float'}),
+        ('collections', {'db': S['mixed-units'], 'q': [lights, 'Surface']}),
+    ] + [(op, {'db': F[i], 'q': q, 'env': e}) for i, q, e in (
+        (10, lights, 2), (10, mrt, 3), (11, mrt, 1), (11, mrt, 2), (12, lights, 1), (12, lights, 2),
+        (13, lights, 4), (13, 'Electricity:Facility', 4), (14, EXOTIC_NAMES[0], 5), (14, EXOTIC_NAMES[1], 1),
+        (14, EXOTIC_NAMES[2], 5), (15, 'Zone Lights Electric Energy ', 2), (15, 'zone lights electric energy', 1),
+        (15, 'Zone  Lights Electric Energy', 2), (15, lights, 1)) for op in ('collections', 'run_period', 'values')] + [
+        ('collections', {'db': F[15], 'q': ['Zone Lights Electric Energy ', 'Zone Lights Electric Energy']}),
+        ('collections', {'db': F[14], 'q': [EXOTIC_NAMES[1], EXOTIC_NAMES[0]]}),
+        ('values', {'db': F[14], 'q': [EXOTIC_NAMES[2], EXOTIC_NAMES[1], EXOTIC_NAMES[0]], 'as_list': True}),
     ]
 
 
@@ -1658,8 +2063,11 @@ def _history_steps(rng, names, envs, k, stratum=None, summary=False):
             return {'op': 'collections', 'inp': {'q': n}}
         if r < 0.6 and len(names) > 1:
             st = {'op': 'collections', 'inp': {'q': rng.sample(names, 2)}}
-            if rng.random() < 0.5:
+            r2 = rng.random()
+            if r2 < 0.4:
                 st['inp']['as_list'] = True
+            elif r2 < 0.6:
+                st['inp']['as'] = 'seq'
             return st
         if r < 0.85:
             return {'op': 'run_period', 'inp': {'q': n, 'env': rng.choice(envs)}}
@@ -1791,10 +2199,11 @@ def _oracle_cases(ctx):
     rng = ctx.rng
     fixed = fixed_specs() + [s for _, s in sorted(finding_specs().items())]
     specs = list(fixed)
-    n = ctx.n(36, 700) * (3 if ctx.searching else 1)
+    n = ctx.n(36, 560) * (3 if ctx.searching else 1)
     for _ in range(n):
         specs.append(gen_spec(rng, big=not ctx.quick and rng.random() < 0.1))
     pool = []           # cases that are re-run in fresh processes in other orders
+    alias_multi = [0]
 
     def emit(op, inp, keep=1.0):
         if len(json.dumps(inp)) < 6000 and rng.random() < keep:
@@ -1812,18 +2221,47 @@ def _oracle_cases(ctx):
             if not present:
                 yield emit('absent', {'db': s, 'q': q, 'env': s['envs'][0][0]}, 0.3)
                 continue
-            c0 = {'db': s, 'q': q}
-            if not isinstance(q, str) and rng.random() < 0.5:
-                c0['as_list'] = True
-                ctx.count('oracle:name_list_object')
-            cases = [('collections', c0)]
+            def shaped(c):
+                r = rng.random()
+                if isinstance(q, str):
+                    if r < 0.15:
+                        c['as'] = 'strsub'
+                elif r < 0.3:
+                    c['as_list'] = True
+                    ctx.count('oracle:name_list_object')
+                elif r < 0.45:
+                    c['as'] = 'seq'
+                elif r < 0.65:
+                    c['as'] = rng.choice(LENIENT_SHAPES)
+                ctx.count('shape:names=%s' % (c.get('as') or ('list' if c.get('as_list') else
+                                                               'str' if isinstance(q, str) else 'tuple')))
+                return c
+
+            cases = [('collections', shaped({'db': s, 'q': q}))]
             if rng.random() < 0.5:
-                cases.append(('values', {'db': s, 'q': q}))
+                cases.append(('values', shaped({'db': s, 'q': q})))
             if isinstance(q, str):
                 for e in s['envs']:
-                    cases.append(('run_period', {'db': s, 'q': q, 'env': e[0]}))
+                    c1 = {'db': s, 'q': q, 'env': e[0]}
+                    if rng.random() < 0.2:
+                        c1['env_as'] = rng.choice(ENV_SHAPES)
+                    ctx.count('shape:env=%s' % c1.get('env_as', 'int'))
+                    cases.append(('run_period', c1))
             for op, inp in cases:
                 yield emit(op, inp, 0.25)
+            # aliasing: answers kept, edited in place, asked again; a second object of the same file
+            if rng.random() < 0.3:
+                multi = len(s['envs']) > 1
+                meth = rng.choice(['all', 'all', 'values'] + (['run_period'] * 2 if isinstance(q, str) else []))
+                c2 = {'db': s, 'q': q, 'method': meth}
+                if meth == 'run_period':
+                    c2['env'] = rng.choice(s['envs'])[0]
+                if meth == 'all' and multi:
+                    alias_multi[0] += 1
+                    if alias_multi[0] > (6 if ctx.quick else 25):
+                        continue    # region of the recorded finding C19-metadata-shared-across-run-periods
+                ctx.count('alias:method=%s%s' % (meth, '+multi_env' if multi else ''))
+                yield emit('alias', c2, 0.0 if (meth == 'all' and multi) else 0.25)
         # property reads on a fresh object, refused requests
         for a in (READ_ATTRS if si < len(fixed) or rng.random() < 0.5 else [rng.choice(READ_ATTRS)]):
             yield emit('read', {'db': s, 'attr': a}, 0.3)
@@ -1866,7 +2304,7 @@ def _oracle_cases(ctx):
         except Exception:
             continue
         yield emit('history', h)
-    for _ in range(ctx.n(30, 600) * (3 if ctx.searching else 1)):
+    for _ in range(ctx.n(30, 500) * (3 if ctx.searching else 1)):
         fam = rng.choice(['mixed1', 'mixed1', 'mixed1', 'single', 'single', 'mixedN', 'mixedN'])
         s = gen_spec(rng, family=fam)
         names = []
@@ -1955,7 +2393,12 @@ LEVEL_TEXT = ('Machine-checked Lean 4 theorems over an executable model of sql.p
               'reads are pure and commute; available_outputs(_info) list exactly the dictionary outputs (J announced '
               'as Energy/kWh), run_period_indices exactly the environments of the Time table in ascending order, '
               'reporting_frequency of a one-label file is that label or 60/Interval steps, values_by_output_name is '
-              'the time-major stream of the selected keys. The model is compared with the real SQLiteResult on '
+              'the time-major stream of the selected keys. Round 4: the leap flag of every period is the rule '
+              '(year != 0 and year % 4 == 0) applied to the LAST Time row, so design days (Year 0) never get a leap '
+              'period, and all run periods of one answer carry one flag; the name argument is a membership test (name '
+              'lists with the same members - other order, duplicates, any container - give the same rows, collections '
+              'and values; a one-name list equals the name up to the Surface test); the three branches of the '
+              'time-table stage (single period / annual / all run periods) are stated as theorems. The model is compared with the real SQLiteResult on '
               'synthetic EnergyPlus databases, the shipped files, the static helpers and on request histories '
               '(step by step) on every run; the oracle also re-runs slices of its stream in fresh Python processes '
               'in other orders.')
